@@ -615,7 +615,14 @@ class World:
                 raise ValueError('key collapsed')
         except Exception:
             return self.rng.choice(self.atoms)
-        t = f'm {len(entries)} ' + ' '.join(f'{k[1].split(" ")[1]} {vt}' for k, (_, vt) in entries) if entries else 'm 0'
+        # the key classes of the token are those of the keys the map REALLY holds (the constructor may have converted a
+        # key: see `map_constructor_key_types`), in the order of the entries
+        L = live()
+        try:
+            kcls = [L.val_cls.index(type(rk)) for rk, _ in items]
+        except ValueError:
+            return self.rng.choice(self.atoms)
+        t = f'm {len(entries)} ' + ' '.join(f'{kc} {vt}' for kc, (_, (_, vt)) in zip(kcls, entries)) if entries else 'm 0'
         return m, t
 
     def gen_array(self, depth):
@@ -1724,6 +1731,31 @@ def impl_eval(W: World, expr: str) -> str:
         return err_text(e)
 
 
+def map_constructor_key_types(run: Run, W: World):
+    """`map{$k: 1}` for one sample of every value class that can be a key: the map holds a key of the class of `$k`
+    (XPath 3.1 §3.11.1.1: the key is the atomized value of the key expression) — the type of the keys is part of every
+    `map(K, V)` judgement; compared with the map built by XPathMap(parser, [(k, 1)])."""
+    st = run.stats
+    seen = set()
+    for k, ktok in W.key_atoms():
+        c = ktok.split(' ')[1]
+        if c in seen:
+            continue
+        seen.add(c)
+        try:
+            m = W.P.parse('map{$k: 1}').evaluate(W.XPathContext(W.root1, variables={'k': k}))
+            got = type(next(iter(m.keys()))).__name__
+        except Exception as e:
+            got = err_text(e)
+        st.case({'map-constructor-key': type(k).__name__}, nontrivial=True)
+        st.count('map-constructor-key-class')
+        if got != type(k).__name__:
+            run.disagree(Disagreement({'expr': 'map{$k: 1}', 'k': f'{type(k).__name__}({str(k)!r})'}, 'key class ' + got, None,
+                                      'key class ' + type(k).__name__, what='map-constructor-key-type',
+                                      site='XPathMap.evaluate / _evaluate: get_atomized_operand',
+                                      tags=[]))
+
+
 def own_occurrence_cases(run: Run, W: World, G=None):
     """a typed function test with an occurrence indicator of its own can only be written with parentheses,
     `(function(A) as R)*`; the AST of the model has no such type, the expected answers are by the cardinality rule
@@ -2008,6 +2040,7 @@ def correspond(run: Run):
     container_histories(run, W)
     error_propagation(run, W)
     own_occurrence_cases(run, W, G)
+    map_constructor_key_types(run, W)
     signatures(run, W)
     run.stats.rule = ('judgement = (sequence type AST rendered with random spacing, value of length 0..3 built from '
                       'atomic values of every value class with a sample, nodes of every kind from two documents, '
